@@ -22,6 +22,7 @@ verus! {
 //@use offsets.rs
 //@use std_int.rs
 broadcast use shim_core::lemma_skip_skip;
+broadcast use shim_core::group_bytes;
 global size_of usize == 8;
 '''
 
